@@ -165,8 +165,8 @@ func (p *service) processIncoming(msg message.Message) error {
 		p.processAcked(p.sess.Pingack)
 
 	case *message.DisconnectMessage:
-		// For DISCONNECT message, we should quit
-		p.sess.Cmsg.SetWillFlag(false)
+		// For DISCONNECT message, we should quit, and without the will
+		p.will = nil
 		return errDisconnect
 
 	default:
